@@ -77,6 +77,7 @@ func genScenario() *rapid.Generator[*scenario] {
 		sc.Mode = rapid.SampledFrom([]string{"queue", "queue", "queue", "queue", "fullSyncOnStart", "blockingFullSyncOnStart", "validateOnStart"}).Draw(t, "mode")
 		sc.Steps = rapid.SliceOfN(genStep(len(sc.Pool)), 3, evid.Pick(14, 24)).Draw(t, "steps")
 		sc.Wake = rapid.IntRange(0, 3).Draw(t, "final") != 0
+		sc.ViaCond = rapid.IntRange(0, 3).Draw(t, "viaCond") == 0
 		return sc
 	})
 }
